@@ -151,6 +151,8 @@ func C08(p *load.Prog, r *oblig.Run) {
 	c08DeepEqual(p, r)
 	// children are matched with Equals: a node that is not equal to its own copy cannot give an all-two-sided diff
 	c07PairSearch(p, r)
+	r.Rule("R07.e", "list equality answers true only for lists of equal length (the relation children are matched with is symmetric in the child counts)", 1)
+	c07ListEquality(p, r)
 	// R08.b
 	cn := roots[0]
 	a := e4.New(p, g, cn)
@@ -200,6 +202,8 @@ func C09(p *load.Prog, r *oblig.Run) {
 	c09Accounts(p, r)
 	// merging matches children with Equals (C07's pair-search rules) and is built from deep copies
 	c07PairSearch(p, r)
+	r.Rule("R07.e", "list equality answers true only for lists of equal length (the relation children are matched with is symmetric in the child counts)", 1)
+	c07ListEquality(p, r)
 	c07CopyWalksAll(p, r)
 	c07CopyThroughFilter(p, r)
 	c07Bookkeeping(p, r)
@@ -345,6 +349,7 @@ func C07(p *load.Prog, r *oblig.Run) {
 	r.Rule("R07.d", "the family links of copied HUSB/WIFE/CHIL nodes lead to families made by the copy, never to the source's", 1)
 	r.Rule("R07.e", "DeepEqual answers true only after the numbers of children of both nodes were compared (or both found zero)", 1)
 	c07EqualShortcuts(p, r)
+	c07ListEquality(p, r)
 	c07PairSearch(p, r)
 	c07CopyWalksAll(p, r)
 	c07CopyThroughFilter(p, r)
@@ -843,4 +848,41 @@ func lengthsComparedBeforeTrue(p *load.Prog, g *ssa.Function) bool {
 		}
 	}
 	return n > 0
+}
+
+// c07ListEquality (R07.e, second clause): the list comparison DeepEqualNodes is called directly by the Equals methods of
+// events and residences, not only by DeepEqual. It answers true only after the two lengths were compared - inside it, or,
+// failing that, in front of every one of its call sites over the two argument lists.
+func c07ListEquality(p *load.Prog, r *oblig.Run) {
+	g := p.Func(load.PkgRoot, "DeepEqualNodes")
+	o := r.Add("R07.e", "lengths compared by or before DeepEqualNodes", "-", "list equality answers true only for lists of equal length")
+	if g == nil || len(g.Blocks) == 0 {
+		o.Unknown("DeepEqualNodes not found")
+		return
+	}
+	o.Pos = p.Pos(g.Pos())
+	if lengthsComparedBeforeTrue(p, g) {
+		o.OK("DeepEqualNodes compares the two lengths on every path that can answer true")
+		return
+	}
+	n, bad := 0, ""
+	for _, caller := range p.Repo {
+		for _, c := range su.CallsTo(caller, g) {
+			n++
+			env := &descEnv{p: p, params: map[*ssa.Parameter]string{}}
+			a0, a1 := env.desc(c.Call.Args[0], 0), env.desc(c.Call.Args[1], 0)
+			want1, want2 := "len("+a0+")==len("+a1+")", "len("+a1+")==len("+a0+")"
+			if !env.holdsAny(c.Block(), func(f cfact) bool { return f.val && (f.atom == want1 || f.atom == want2) }) {
+				bad = "the call at " + p.Pos(c.Pos()) + " in " + load.FuncName(caller) + " hands over two lists whose lengths were not compared"
+			}
+		}
+	}
+	switch {
+	case bad != "":
+		o.Fail("DeepEqualNodes can answer true without having compared the lengths of its two lists, and " + bad + ": a node whose children are a sub-multiset of the other's is 'equal' to it in one direction only (Equals(a, b) != Equals(b, a)), so a diff or merge pairs nodes that are not equal")
+	case n == 0:
+		o.Unknown("DeepEqualNodes does not compare lengths and has no static caller")
+	default:
+		o.OK(fmt.Sprintf("the lengths are compared in front of all %d call sites", n))
+	}
 }
